@@ -821,7 +821,8 @@ pub fn c19(c: &mut Ctx, b: &Budget) {
         let all_types: Vec<Envelope> = vec![Envelope::new(known_values::SEED_TYPE), Envelope::new(known_values::PRIVATE_KEY_TYPE), Envelope::new("Custom"), Envelope::new(7u64), Envelope::new(KnownValue::new(100000))];
         let base_t = e.subject();
         let mut te = base_t.clone();
-        let mut mine = vec![];
+        // the subject may itself be a node that already carries 'isA' assertions (a node can be the subject of a node): they count
+        let mut mine: Vec<Envelope> = guarded(|| base_t.types()).unwrap_or_default();
         for t in &all_types { if c.rng.chance(1, 2) { te = te.add_type(t.clone()); mine.push(t.clone()); } }
         if i % 3 == 0 { if let Some(t) = mine.first() { te = te.add_assertion_salted(known_values::IS_A, t.clone(), true); } }
         import(c, &te);
@@ -845,7 +846,7 @@ pub fn c19(c: &mut Ctx, b: &Budget) {
         let got = guarded(|| td.has_type_envelope(decorated_type.clone()));
         c.check("has-type-iff-added", got == Ok(true), "has-type", || "decorated type not found".into());
         let tys = guarded(|| te.types());
-        if let Ok(tys) = tys { let distinct: HashSet<_> = tys.iter().map(|t| t.digest().into_owned()).collect(); c.check("types-exact", distinct.len() == mine.len(), "types-exact", || format!("{} vs {}", distinct.len(), mine.len())); }
+        if let Ok(tys) = tys { let distinct: HashSet<_> = tys.iter().map(|t| t.digest().into_owned()).collect(); let want: HashSet<_> = mine.iter().map(|t| t.digest().into_owned()).collect(); c.check("types-exact", distinct == want, "types-exact", || format!("{} vs {}", distinct.len(), want.len())); }
         let gt = guarded(|| te.get_type());
         c.check("get-type-single", matches!(&gt, Ok(Ok(_))) == (te.assertions_with_predicate(known_values::IS_A).len() == 1), "get-type", || format!("{:?}", gt.map(|r| r.map(|_| ()).map_err(|e| e.to_string()))));
         c.end();
@@ -1166,7 +1167,8 @@ pub fn c11_model(c: &mut Ctx, b: &Budget) {
             let ck2 = c.rng.bytes(32); let nonce2 = c.rng.bytes(12);
             let enc2 = c.assign(&format!("encrypt_subject {} {} {}", e, hex::encode(&ck2), hex::encode(&nonce2)));
             let other = sskr_generate(&spec, &SSKRSecret::new(&ck2).unwrap()).unwrap();
-            if c.is_ok(&enc2) && other[0][0].identifier() != split1[0][0].identifier() {
+            let clean_original = c.env(&e).map(|x| x.assertions_with_predicate(known_values::SSKR_SHARE).is_empty()).unwrap_or(false);
+            if c.is_ok(&enc2) && clean_original && other[0][0].identifier() != split1[0][0].identifier() {
                 let flat_o: Vec<(String, SSKRShare)> = other.iter().flatten().map(|sh| {
                     let hx = hex::encode(sh.to_cbor_data()); let l = c.assign(&format!("leaf {}", hx)); c.line(format!("fact sskr id {} {}", hx, sh.identifier()));
                     (c.assign(&format!("add_sskr_share {} {}", enc2, l)), sh.clone()) }).collect();
